@@ -33,9 +33,10 @@ import (
 )
 
 type schedItem struct {
-	k   int  // requested size
-	n   int  // repeat
-	ign bool // ignorable error, no data
+	k    int  // requested size
+	n    int  // repeat
+	ign  bool // ignorable error, no data
+	fail bool // a Read that fails with an error that is neither EOF nor ignorable: readTlvStream returns it
 }
 
 type streamCase struct {
@@ -48,6 +49,7 @@ type streamCase struct {
 
 var errSpin = errors.New("verif: zero-length Read (the framer would spin)")
 var errIgn = errors.New("verif: ignorable error")
+var errOther = errors.New("verif: connection reset")
 
 type spinSentinel struct{}
 
@@ -74,6 +76,9 @@ func (r *scriptedReader) Read(p []byte) (int, error) {
 	}
 	it := r.sched[r.si]
 	r.sn++
+	if it.fail {
+		return 0, errOther
+	}
 	n := it.k
 	if n > len(p) {
 		n = len(p)
@@ -362,6 +367,9 @@ func genWellFormed(r *rand.Rand, idx int, long bool) *streamCase {
 		c.kind = "wf-partial"
 		c.stream, c.blocks = genBlocks(r, 100+r.Intn(30000), 500, 30)
 		c.sched = []schedItem{{k: 1 + r.Intn(50), n: 1 + r.Intn(200)}, {k: 1 + r.Intn(9000), n: r.Intn(3)}}
+		if r.Intn(2) == 0 { // the connection breaks: a Read fails with a real error
+			c.sched = append(c.sched, schedItem{fail: true, n: 1})
+		}
 	}
 	return c
 }
@@ -471,6 +479,8 @@ func schedString(s []schedItem) string {
 	parts := make([]string, 0, len(s))
 	for _, it := range s {
 		switch {
+		case it.fail:
+			parts = append(parts, "X")
 		case it.ign:
 			for i := 0; i < it.n; i++ {
 				if it.k > 0 {
@@ -495,6 +505,10 @@ func parseSched(s string) []schedItem {
 	var res []schedItem
 	for _, f := range strings.Fields(s) {
 		if f == "-" {
+			continue
+		}
+		if f == "X" {
+			res = append(res, schedItem{fail: true, n: 1})
 			continue
 		}
 		if strings.HasSuffix(f, "!") {
